@@ -749,7 +749,7 @@ def gen_stats_query(rng, schema, ds, opts=None):
                 shared = gen_tree(rng, schema, ds, table, simple_cols or cols, dict(opts, negate_p=0.1), "Stats", 1)
                 nshared = 1
             cv_run = False
-            if rng.random() < 0.22 and any(c["name"] == "custom_variables" for c in cols):
+            if rng.random() < opts.get("cv_run_p", 0.22) and any(c["name"] == "custom_variables" for c in cols):
                 # counters that start with the same custom variable term; a later one names another variable
                 shared = ["Stats: custom_variables %s %s %s" % (rng.choice(["=", "!=", "~"]), rng.choice(CV_NAMES), rng.choice(CV_VALUES[:4]))]
                 nshared, run, cv_run = 1, rng.choice([3, 3, 4]), True
